@@ -54,6 +54,18 @@ Proof.
   f_equal. lia.
 Qed.
 
+Lemma ctl_escape_read : forall b t, b < 32 ->
+  json_str true ([92; 117; 48; 48; hexdigit (b / 16); hexdigit (b mod 16)] ++ t) = opt_cons [b] (json_str true t).
+Proof.
+  intros b t Hb.
+  cbn [app json_str]. cbn [N.eqb Pos.eqb].
+  rewrite (hex_low b Hb).
+  assert (Eh : is_high_surrogate b = false) by (unfold is_high_surrogate; lia).
+  rewrite Eh.
+  assert (Eu : utf8_encode b = [b]) by (unfold utf8_encode; assert (E : (b <? 128) = true) by lia; rewrite E; reflexivity).
+  rewrite Eu. reflexivity.
+Qed.
+
 Lemma escape_ascii_read : forall b t,
   (b <? 128) = true -> json_safe b = false ->
   json_str true (json_escape_ascii b ++ t) = opt_cons [b] (json_str true t).
@@ -67,12 +79,7 @@ Proof.
   destruct (b =? 13) eqn:E13. { assert (b = 13) by lia. subst. reflexivity. }
   destruct (b =? 9) eqn:E9. { assert (b = 9) by lia. subst. reflexivity. }
   assert (Hb : b < 32). { unfold json_safe in Hs. lia. }
-  cbn [app json_str]. cbn [N.eqb Pos.eqb].
-  rewrite (hex_low b Hb).
-  assert (Eh : is_high_surrogate b = false) by (unfold is_high_surrogate; lia).
-  rewrite Eh.
-  assert (Eu : utf8_encode b = [b]) by (unfold utf8_encode; assert (E : (b <? 128) = true) by lia; rewrite E; reflexivity).
-  rewrite Eu. reflexivity.
+  apply ctl_escape_read. exact Hb.
 Qed.
 
 Lemma opt_cons_some : forall pre s rest, opt_cons pre (Some (s, rest)) = Some (pre ++ s, rest).
